@@ -196,4 +196,4 @@ let handle (line : string) (kind : string) (args : string list) (obs : string) :
   match kind with
   | "zkeys" -> handle_zkeys (args @ [obs])
   | "bscript" -> handle_bscript line args obs
-  | _ -> Dispatch3.handle line kind args obs
+  | _ -> failwith ("unknown case kind: " ^ line)
